@@ -73,10 +73,10 @@ def _b(s):
 
 
 class XL:
-    def __init__(self, config='shipped'):
+    def __init__(self, config='shipped', so=None):
+        """so: another build of the same tree to bind to (e.g. build.meson_lib(config, variant='release')['so']); default: the monitor's plain build"""
         self.config = config
-        L = build.lib(config, 'plain')
-        self.lib = lib = C.CDLL(L['so'])
+        self.lib = lib = C.CDLL(so or build.lib(config, 'plain')['so'])
         self.calls = 0
         lib.xrl_error_free.argtypes = [C.POINTER(XrlError)]
         lib.xrlFree.argtypes = [C.c_void_p]
